@@ -28,7 +28,7 @@ HARD = {"enospc", "eio_write", "eio_close", "eio_read"}
 def gen_io_workload(rng, inexpressible=None):
     """A graph from the class .g2o can express (or, if asked, with one inexpressible element)."""
     meta = {}
-    dim = rng.choice(["2d", "3d", "both"])
+    dim = rng.choice(["2d", "3d", "both"] * 8 + ["empty"])  # rarely: a graph with nothing in it
     meta["dim"] = dim
     mag = rng.choice(["moderate", "moderate", "wide", "wide", "huge", "tiny"])
     meta["magnitude"] = mag
@@ -534,10 +534,13 @@ class C13(OptEngineBase):
                         finally:
                             w.log.op_index = i
                         res.n_checks += 1
-                        if w.disk.get(op["path"]) != w.disk.get("/simfs/__fresh__.g2o"):
+                        got_b = bytes(w.disk.files.get(op["path"], b"\xff<no file>"))
+                        fresh_b = bytes(w.disk.files.get("/simfs/__fresh__.g2o", b"\xff<no file>"))
+                        if got_b != fresh_b:
                             res.violate("C13:re-export-differs", "op %d: re-exporting to an existing path left %d bytes, a fresh export has %d bytes"
-                                        % (i, len(w.disk.get(op["path"])), len(w.disk.get("/simfs/__fresh__.g2o"))))
+                                        % (i, len(got_b), len(fresh_b)))
                             break
+                        w.disk.files.pop("/simfs/__fresh__.g2o", None)
                     continue
                 if kind == "import":
                     if op["path"] not in acked:
